@@ -48,6 +48,8 @@ def mutants(prog):
         ("FlowField.sitk keeps axes", DF, "FlowField.sitk", "disp = disp.axes(axes or Axes.WORLD)", "disp = disp", "T18.flow-api"),
         ("mha reader: shared module-level dict", M, "read_meta_image_from_fileobj", "meta = dict.fromkeys(META_IMAGE_TAGS, None)", "meta = META_IMAGE_TYPES", "E1.module-state"),
         ("nifti writer: squeeze every singleton axis", N, "write_nifti_image", "dataobj = np.transpose(data.numpy(), axes=tuple(reversed(range(data.ndim))))", "dataobj = np.squeeze(np.transpose(data.numpy(), axes=tuple(reversed(range(data.ndim))))) if data.shape[0] == 1 else np.transpose(data.numpy(), axes=tuple(reversed(range(data.ndim))))", "T18.singleton"),
+        ("to_uri bypasses the overridden write", DI, "Image.to_uri", "self.write(uri, compress=compress)", "write_image(self.tensor(), self.grid(), uri, compress=compress)", "T18.flow-api"),
+        ("mha writer: channel count of channel-less data", M, "write_meta_image", "data.shape[0] if data.ndim == grid.ndim + 1 else 1", "data.shape[0]", "T18.channel-less"),
     ]
     for name, mod, fn, old, new, expect in specs:
         if expect == "SKIP":
